@@ -2,10 +2,11 @@
    oracles of this property rest on, regenerated from /repo on every run, equal the reviewed ones:
      - group wiring (which output feeds which input, as OpenMDAO resolves it) of the canonical models of: AeroPoint, AerostructPoint
      - unit contract (declared units of every input / output) of the classes in: common, functionals
-   An edit that re-wires a group or drops / changes a unit in these areas breaks the obligation; the oracles of the property
-   then look for the failing input. *)
+     - option defaults of the classes in: functionals
+   An edit that re-wires a group, drops / changes a unit or changes a default in these areas breaks the obligation; the oracles of
+   the property then look for the failing input. *)
 From Coq Require Import String List Bool.
-From OAS Require Import Wiring WiringReviewed IOUnits IOUnitsReviewed Tie_wiring_AeroPoint Tie_wiring_AerostructPoint Tie_units_common Tie_units_functionals.
+From OAS Require Import Wiring WiringReviewed IOUnits IOUnitsReviewed OptionDefaults OptionDefaultsReviewed Tie_wiring_AeroPoint Tie_wiring_AerostructPoint Tie_units_common Tie_units_functionals Tie_options_functionals.
 Import ListNotations.
 
 Theorem C17_wiring_of_AeroPoint_models_is_the_reviewed_one :
@@ -27,3 +28,8 @@ Theorem C17_unit_contract_of_functionals_is_the_reviewed_one :
   units_dir_functionals gen_io_units = units_dir_functionals reviewed_io_units /\ units_dir_functionals reviewed_io_units <> [].
 Proof. split; [exact units_functionals_reviewed | exact units_functionals_nonempty]. Qed.
 Print Assumptions C17_unit_contract_of_functionals_is_the_reviewed_one.
+
+Theorem C17_option_defaults_of_functionals_are_the_reviewed_ones :
+  options_dir_functionals gen_option_defaults = options_dir_functionals reviewed_option_defaults /\ options_dir_functionals reviewed_option_defaults <> [].
+Proof. split; [exact options_functionals_reviewed | exact options_functionals_nonempty]. Qed.
+Print Assumptions C17_option_defaults_of_functionals_are_the_reviewed_ones.
